@@ -160,3 +160,66 @@ theorem jac_isLinIter (ω : K) (n : Nat) (rows : Nat → Row K) (diag : Nat → 
   · simp [hj]
 
 end PyamgV.C05
+
+namespace PyamgV.C05
+open PyamgV
+
+variable {K : Type*} [Field K] [LinearOrder K] [IsStrictOrderedRing K] [DecidableEq K]
+
+/-- function-level model of the smoother `s` on a CSR level given by its rows: the drivers of
+relaxation.py (`gauss_seidel`/`sor`, `jacobi`, `cf_jacobi`/`fc_jacobi`) over the kernel row updates -/
+def smFn (rows : Nat → Row K) (n : Nat) (C F : List Nat) : Sm → (Nat → K) → (Nat → K) → (Nat → K)
+  | .none => fun x _ => x
+  | .gs ω sw k => fun x b => PyamgV.iter (gsFn (ω : K) rows n sw) b k x
+  | .jac ω k => fun x b => PyamgV.iter (fun x b => jacSweepFn (ω : K) rows b (List.range n) x) b k x
+  | .cfjac true ω it fi ci => fun x b =>
+      PyamgV.iter (fun x b =>
+        PyamgV.iter (fun x b => jacSweepFn (ω : K) rows b F x) b fi
+          (PyamgV.iter (fun x b => jacSweepFn (ω : K) rows b C x) b ci x)) b it x
+  | .cfjac false ω it fi ci => fun x b =>
+      PyamgV.iter (fun x b =>
+        PyamgV.iter (fun x b => jacSweepFn (ω : K) rows b C x) b ci
+          (PyamgV.iter (fun x b => jacSweepFn (ω : K) rows b F x) b fi x)) b it x
+
+/-- **every smoother of the cycle model is the linear iteration `x + smOp (b − A x)`** -/
+theorem sm_isLinIter (n : Nat) (rows : Nat → Row K) (diag : Nat → K)
+    (hdiag : ∀ i, i < n → HasDiag i (rows i) (diag i) ∧ diag i ≠ 0)
+    (C F : List Nat) (hC : ∀ i ∈ C, i < n) (hF : ∀ i ∈ F, i < n) (hCn : C.Nodup) (hFn : F.Nodup) (s : Sm) :
+    IsLinIter (csrOp n rows) (smFn rows n C F s) (smOp (csrOp n rows) diag n C F s) := by
+  have hjC := fun (ω : Rat) => jac_isLinIter (ω : K) n rows diag hdiag C hC hCn
+  have hjF := fun (ω : Rat) => jac_isLinIter (ω : K) n rows diag hdiag F hF hFn
+  cases s with
+  | none => intro x b; simp [smFn, smOp]
+  | gs ω sw k => exact gs_isLinIter ω n rows diag hdiag C F sw k
+  | jac ω k =>
+    have h := jac_isLinIter (ω : K) n rows diag hdiag (List.range n)
+      (fun i hi => List.mem_range.1 hi) List.nodup_range
+    simpa [smFn, smOp] using h.pow k
+  | cfjac c ω it fi ci =>
+    cases c with
+    | true => simpa [smFn, smOp] using (((hjC ω).pow ci).comp ((hjF ω).pow fi)).pow it
+    | false => simpa [smFn, smOp] using (((hjF ω).pow fi).comp ((hjC ω).pow ci)).pow it
+
+end PyamgV.C05
+
+namespace PyamgV.C05
+open PyamgV
+
+variable {K : Type*} [Field K] [LinearOrder K] [IsStrictOrderedRing K] [DecidableEq K]
+
+/-- **C05 for the recursion itself**: on a hierarchy whose smoothers are linear iterations with the
+operators installed by `change_smoothers(ml, pre, post)` (`WFL`, `WFFlag`) and whose flag is `True`,
+one V- or W-cycle of `__solve` is `x ↦ x + M (b − A x)` with a *symmetric* `M`. -/
+theorem flag_cycle_preconditioner (S : Op K) (pre post : List Cfg) (nl : Nat)
+    (hp : 1 ≤ pre.length) (hq : 1 ≤ post.length) (hflag : flag pre post nl = some true)
+    (L : LinLevel K (Nat → K)) (Ls : List (LinLevel K (Nat → K))) (hlen : (L :: Ls).length = nl)
+    (A : Op K) (hwl : WFL A (L :: Ls))
+    (d : LvlData K) (ds : List (LvlData K)) (hwf : WFFlag S pre post 0 d ds (L :: Ls)) :
+    (IsLinIter A (cyc (fun b => S b) .V ((L :: Ls).map (·.toLevel))) (Mop S .V (L :: Ls)) ∧
+      ∀ u v, (euc K d.n).a (Mop S .V (L :: Ls) u) v = (euc K d.n).a u (Mop S .V (L :: Ls) v)) ∧
+    (IsLinIter A (cyc (fun b => S b) .W ((L :: Ls).map (·.toLevel))) (Mop S .W (L :: Ls)) ∧
+      ∀ u v, (euc K d.n).a (Mop S .W (L :: Ls) u) v = (euc K d.n).a u (Mop S .W (L :: Ls) v)) := by
+  obtain ⟨hV, hW⟩ := flag_cycle_symmetric S pre post nl hp hq hflag (L :: Ls) hlen d ds hwf
+  exact ⟨⟨cyc_isLinIter S Ls .V L A hwl, hV⟩, ⟨cyc_isLinIter S Ls .W L A hwl, hW⟩⟩
+
+end PyamgV.C05
